@@ -232,7 +232,7 @@ func (p bpProv) Proposal(ctx context.Context, _ *api.ProposalOpts) (*api.Respons
 		val = 300
 	}
 	blk := &bellatrix.BeaconBlock{Slot: c07Slot, ParentRoot: root(k), Body: &bellatrix.BeaconBlockBody{
-		ETH1Data:         &phase0.ETH1Data{},
+		ETH1Data:         &phase0.ETH1Data{BlockHash: make([]byte, 32)},
 		SyncAggregate:    &altair.SyncAggregate{SyncCommitteeBits: bitfield.NewBitvector512()},
 		ExecutionPayload: &bellatrix.ExecutionPayload{FeeRecipient: fee},
 	}}
@@ -336,7 +336,7 @@ func (p sbProv) SignedBeaconBlock(ctx context.Context, _ *api.SignedBeaconBlockO
 		return nil, err
 	}
 	return &api.Response[*spec.VersionedSignedBeaconBlock]{Data: &spec.VersionedSignedBeaconBlock{Version: spec.DataVersionPhase0,
-		Phase0: &phase0.SignedBeaconBlock{Message: &phase0.BeaconBlock{Slot: c07Slot, ParentRoot: root(k), Body: &phase0.BeaconBlockBody{ETH1Data: &phase0.ETH1Data{}}}}}, Metadata: map[string]any{}}, nil
+		Phase0: &phase0.SignedBeaconBlock{Message: &phase0.BeaconBlock{Slot: c07Slot, ParentRoot: root(k), Body: &phase0.BeaconBlockBody{ETH1Data: &phase0.ETH1Data{BlockHash: make([]byte, 32)}}}}}, Metadata: map[string]any{}}, nil
 }
 
 func c07Strats() []c07Strat {
